@@ -35,6 +35,11 @@ func c17Partial() *TextSet {
 		for _, b := range m2 {
 			out = append(out, []interface{}{b})
 		}
+		// one member that carries none of the set keys, after and before keyed members
+		for _, v := range []V{1.0, 2.0} {
+			n := map[string]interface{}{"name": "x", "v": v}
+			out = append(out, []interface{}{n}, []interface{}{m1[0], n}, []interface{}{n, m2[0]}, []interface{}{m1[3], n, m2[1]}, map[string]interface{}{"items": []interface{}{m2[0], n}})
+		}
 		return NewTextSet(out)
 	})
 }
@@ -45,7 +50,8 @@ func c17Legs(tier, o string) []pairLeg {
 		legs := pairSpace(tier, "SETKEYS:id,t")
 		return append(legs, pairLeg{"Kpartial", c17Partial(), c17Partial()})
 	case "SET+SETKEYS:id":
-		return pairSpace(tier, "SETKEYS:id")
+		legs := pairSpace(tier, "SETKEYS:id")
+		return append(legs, pairLeg{"Kpartial", c17Partial(), c17Partial()})
 	case "SETKEYS:id":
 		legs := pairSpace(tier, "SETKEYS:id")
 		return append(legs, pairLeg{"A3x6", Arr(3, "6"), Arr(3, "6")})
